@@ -4,26 +4,26 @@ namespace Driver
 open Gedcom
 
 /-- ids of the right tree start here (the left tree is numbered from 0) -/
-def rightBase : Nat := 1000000
+def c08RightBase : Nat := 1000000
 
-def showId (i : Nat) : String :=
-  if i < rightBase then s!"l{i}" else if i < 2 * rightBase then s!"r{i - rightBase}" else "?"
+def c08ShowId (i : Nat) : String :=
+  if i < c08RightBase then s!"l{i}" else if i < 2 * c08RightBase then s!"r{i - c08RightBase}" else "?"
 
-def showSlot : Option INode → String
-  | some n => showId n.id
+def c08ShowSlot : Option INode → String
+  | some n => c08ShowId n.id
   | none => "-"
 
 /-- preorder dump of a diff: `depth:left:right` per entry -/
-partial def dumpDiff (depth : Nat) : Diff → List String
-  | .mk L R cs => s!"{depth}:{showSlot L}:{showSlot R}" :: cs.flatMap (dumpDiff (depth + 1))
+partial def c08DumpDiff (depth : Nat) : Diff → List String
+  | .mk L R cs => s!"{depth}:{c08ShowSlot L}:{c08ShowSlot R}" :: cs.flatMap (c08DumpDiff (depth + 1))
 
-def showDiff (d : Diff) : String := " ".intercalate (dumpDiff 0 d)
+def c08ShowDiff (d : Diff) : String := " ".intercalate (c08DumpDiff 0 d)
 
-def opOfChar : Char → Option DiffOp
+def c08OpOfChar : Char → Option DiffOp
   | 'C' => some .compare | 'S' => some .string | 'E' => some .isDeepEqual
   | 'O' => some .sort | 'T' => some .tag | _ => none
 
-def showObs : DiffObs → String
+def c08ShowObs : DiffObs → String
   | .unit => "-"
   | .bool b => b2s b
   | .str s => toHex s
@@ -40,15 +40,15 @@ def handleDiff (cmd : String) (rest : List String) : Option String :=
     match rest with
     | ops :: toks =>
       (do
-        let ops ← if ops == "-" then some [] else ops.toList.mapM opOfChar
+        let ops ← if ops == "-" then some [] else ops.toList.mapM c08OpOfChar
         let (lt, toks) ← parseNode toks
         let (rt, toks) ← parseNode toks
         if !toks.isEmpty then none
         let l := (labelNode 0 lt).1
-        let r := (labelNode rightBase rt).1
+        let r := (labelNode c08RightBase rt).1
         let w0 := DiffWorld.init l r
         let line (w : DiffWorld) (o : String) : String :=
-          s!"{o} [{showDiff w.diff}] {b2s (!(w.left.erase == l.erase))}{b2s (!(w.right.erase == r.erase))}"
+          s!"{o} [{c08ShowDiff w.diff}] {b2s (!(w.left.erase == l.erase))}{b2s (!(w.right.erase == r.erase))}"
         let changed (w : DiffWorld) : Bool := !(w.left.erase == l.erase) || !(w.right.erase == r.erase)
         -- as the harness does, stop at the first operation that modified a compared tree: the trees
         -- are no longer what was compared (and the unrepaired code keeps doubling them)
@@ -57,8 +57,8 @@ def handleDiff (cmd : String) (rest : List String) : Option String :=
           | [] => (acc.reverse, some w)
           | op :: more =>
             let r := diffStep w op
-            if changed r.1 then ((line r.1 (showObs r.2) :: acc).reverse, none)
-            else go r.1 more (line r.1 (showObs r.2) :: acc)
+            if changed r.1 then ((line r.1 (c08ShowObs r.2) :: acc).reverse, none)
+            else go r.1 more (line r.1 (c08ShowObs r.2) :: acc)
         let (lines, w) := go w0 ops [line w0 "init"]
         match w with
         | some w => pure (" ; ".intercalate lines ++ " ; " ++ showNode w.left.erase ++ " / " ++ showNode w.right.erase)
